@@ -22,6 +22,9 @@ PROP = {
 
 DTYPES = ["<f4", "<f8", "<i4", "<i8", "u1", "bool"]
 SHAPES = [()] + [s for r in (1, 2, 3) for s in itertools.product(range(5), repeat=r)]
+# same number of elements as a required shape but a different shape, and a few larger extents
+SHAPES += [(9,), (1, 9), (9, 1), (6,), (12,), (5,), (8,), (1, 1, 3), (3, 1, 1), (1, 1, 9), (2, 2, 1), (1, 2, 2), (7, 3), (3, 7), (1, 1, 1, 3), (3, 3, 1, 1)]
+SHAPES = list(dict.fromkeys(SHAPES))
 KINDS = ["none", "str", "int", "float", "list", "tuple", "nested-list", "list3", "bytes", "dict"]
 
 
@@ -292,7 +295,7 @@ def run_events(ctx, case):
 
 SUBS = [
     Sub("shape-lattice", run_shape, kind="enum", enumerate=enum_shapes, shards=(8, 16),
-        rule="21 validated arguments x (156 shapes x 6 dtypes + 16 non-array kinds); finite, enumerated completely"),
+        rule="21 validated arguments x (171 shapes x 6 dtypes + 18 non-array kinds); finite, enumerated completely"),
     Sub("coupled-arrays", run_coupled, kind="enum", enumerate=enum_coupled, shards=(4, 8),
         rule="ForceTorqueTrack: full triple product of a 14-shape lattice + dtype variants + non-array kinds per position; finite, enumerated completely"),
     Sub("events", run_events, kind="enum", enumerate=enum_events, shards=(1, 1),
